@@ -93,6 +93,117 @@ pub mod fs {
         let p = path.as_ref().to_string_lossy().to_string();
         world::with(|w| w.disk.write_whole(&p, contents.as_ref()))
     }
+
+    pub async fn create_dir_all(path: impl AsRef<Path>) -> io::Result<()> {
+        maybe_yield().await;
+        let p = path.as_ref().to_string_lossy().to_string();
+        world::with(|w| w.disk.mkdir_all(&p))
+    }
+
+    pub async fn remove_file(path: impl AsRef<Path>) -> io::Result<()> {
+        maybe_yield().await;
+        let p = path.as_ref().to_string_lossy().to_string();
+        world::with(|w| w.disk.remove_file(&p))
+    }
+
+    pub async fn rename(from: impl AsRef<Path>, to: impl AsRef<Path>) -> io::Result<()> {
+        maybe_yield().await;
+        let (a, b) = (from.as_ref().to_string_lossy().to_string(), to.as_ref().to_string_lossy().to_string());
+        world::with(|w| w.disk.rename(&a, &b))
+    }
+
+    pub async fn try_exists(path: impl AsRef<Path>) -> io::Result<bool> {
+        maybe_yield().await;
+        let p = path.as_ref().to_string_lossy().to_string();
+        Ok(world::with(|w| w.disk.exists(&p)))
+    }
+
+    /// What tokio's own `File` takes per `write` call (its internal buffer limit).
+    const MAX_WRITE: usize = 2 * 1024 * 1024;
+
+    /// Simulated `tokio::fs::File`: the subset a piece store is likely to use.
+    #[derive(Debug)]
+    pub struct File {
+        abs: String,
+        pos: u64,
+    }
+
+    impl File {
+        pub async fn create(path: impl AsRef<Path>) -> io::Result<File> {
+            maybe_yield().await;
+            let p = path.as_ref().to_string_lossy().to_string();
+            world::with(|w| w.disk.afile_create(&p)).map(|abs| File { abs, pos: 0 })
+        }
+
+        pub async fn open(path: impl AsRef<Path>) -> io::Result<File> {
+            maybe_yield().await;
+            let p = path.as_ref().to_string_lossy().to_string();
+            world::with(|w| w.disk.open(&p)).map(|abs| File { abs, pos: 0 })
+        }
+
+        pub async fn sync_all(&self) -> io::Result<()> {
+            maybe_yield().await;
+            Ok(())
+        }
+
+        pub async fn sync_data(&self) -> io::Result<()> {
+            maybe_yield().await;
+            Ok(())
+        }
+
+        pub async fn set_len(&self, size: u64) -> io::Result<()> {
+            maybe_yield().await;
+            world::with(|w| w.disk.afile_set_len(&self.abs, size))
+        }
+    }
+
+    impl tokio_real::io::AsyncWrite for File {
+        fn poll_write(mut self: std::pin::Pin<&mut Self>, _cx: &mut std::task::Context<'_>, buf: &[u8]) -> std::task::Poll<io::Result<usize>> {
+            let (abs, pos) = (self.abs.clone(), self.pos);
+            let r = world::with(|w| w.disk.afile_write(&abs, pos, buf, MAX_WRITE));
+            if let Ok(n) = &r {
+                self.pos += *n as u64;
+            }
+            std::task::Poll::Ready(r)
+        }
+        fn poll_flush(self: std::pin::Pin<&mut Self>, _cx: &mut std::task::Context<'_>) -> std::task::Poll<io::Result<()>> {
+            std::task::Poll::Ready(Ok(()))
+        }
+        fn poll_shutdown(self: std::pin::Pin<&mut Self>, _cx: &mut std::task::Context<'_>) -> std::task::Poll<io::Result<()>> {
+            std::task::Poll::Ready(Ok(()))
+        }
+    }
+
+    impl tokio_real::io::AsyncRead for File {
+        fn poll_read(mut self: std::pin::Pin<&mut Self>, _cx: &mut std::task::Context<'_>, buf: &mut tokio_real::io::ReadBuf<'_>) -> std::task::Poll<io::Result<()>> {
+            let (abs, pos) = (self.abs.clone(), self.pos);
+            let dst = buf.initialize_unfilled();
+            let r = world::with(|w| w.disk.read_at(&abs, pos, dst));
+            match r {
+                Ok(n) => {
+                    buf.advance(n);
+                    self.pos += n as u64;
+                    std::task::Poll::Ready(Ok(()))
+                }
+                Err(e) => std::task::Poll::Ready(Err(e)),
+            }
+        }
+    }
+
+    impl tokio_real::io::AsyncSeek for File {
+        fn start_seek(mut self: std::pin::Pin<&mut Self>, position: io::SeekFrom) -> io::Result<()> {
+            let len = world::with(|w| w.disk.len_of(&self.abs)).unwrap_or(0);
+            self.pos = match position {
+                io::SeekFrom::Start(p) => p,
+                io::SeekFrom::End(d) => (len as i64 + d).max(0) as u64,
+                io::SeekFrom::Current(d) => (self.pos as i64 + d).max(0) as u64,
+            };
+            Ok(())
+        }
+        fn poll_complete(self: std::pin::Pin<&mut Self>, _cx: &mut std::task::Context<'_>) -> std::task::Poll<io::Result<u64>> {
+            std::task::Poll::Ready(Ok(self.pos))
+        }
+    }
 }
 
 /// `tokio::sync` with the three channel kinds rdest uses wrapped so that the simulator can inject
